@@ -616,7 +616,7 @@ func switchNud(p *parser, t *token) *token {
 	for {
 		if p.Token.Symbol == "case" {
 			c := p.Advance("case")
-			c.Append(p.Statement())
+			c.Append(p.Expression(0)) // an expression, not a statement: a call here yields its value
 			p.Advance(":")
 			c.Append(getCase(p))
 			cases.Append(c)
